@@ -223,7 +223,7 @@ func discharge(obls []*Obligation, scratch string, timeout int, thorough bool) *
 		}
 		j.obs = append(j.obs, o)
 	}
-	st.queries = len(jobs)
+	st.queries += len(jobs)
 	var mu sync.Mutex
 	sem := make(chan struct{}, 12)
 	var wg sync.WaitGroup
